@@ -227,8 +227,12 @@ def rank_table(table):
 def gen_tree_case(rng, tier):
     n = rng.randint(2, 7 if tier == "quick" else 9)
     net = gen.rand_net(rng, nmin=n, nmax=n, max_inds=8, dims=(2,), max_rank=6, max_total=10 ** 9)
+    cls = rng.choice(["plain", "plain", "compressed"])
     return {"kind": "tree", "net": net.json(), "tree": gen.rand_tree(rng, n),
-            "order": rng.choice(ORDERS), "seed": rng.randrange(1 << 30)}
+            "order": "dfs" if (cls == "compressed" and rng.random() < 0.5) else rng.choice(ORDERS),
+            "seed": rng.randrange(1 << 30),
+            # the ordered-tree subclass resolves `order=None` to its surface order, not to dfs
+            "cls": cls}
 
 
 def gen_path_case(rng, tier):
@@ -266,10 +270,41 @@ def gen_edge_case(rng, tier):
 # one case = observation + oracle (implementation only); returns (fail | None, obs)
 
 
+def shuffled_ssa(t, n, seed):
+    """an SSA path of the nested tree `t` whose steps come in a random children-first order (not the
+    depth-first one): the order an ordered tree remembers as its own"""
+    steps = []      # (id, a, b) with provisional ids
+
+    def go(x):
+        if isinstance(x, int):
+            return ("leaf", x)
+        a, b = go(x[0]), go(x[1])
+        steps.append([("node", len(steps)), a, b])
+        return steps[-1][0]
+    go(t)
+    rr = random.Random(seed)
+    done, ids, out, nxt = set(), {}, [], n
+    pending = list(range(len(steps)))
+    while pending:
+        ready = [k for k in pending if all(c[0] == "leaf" or c in done for c in steps[k][1:])]
+        k = rr.choice(ready)
+        pending.remove(k)
+        me, a, b = steps[k]
+        out.append(tuple(c[1] if c[0] == "leaf" else ids[c] for c in (a, b)))
+        ids[me] = nxt
+        nxt += 1
+        done.add(me)
+    return out
+
+
 def run_tree_case(case):
     net = gen.Net.from_json(case["net"])
     n = len(net.inputs)
-    tree = gen.real_tree(ctg, net, case["tree"])
+    if case.get("cls") == "compressed":
+        tree = ctg.ContractionTreeCompressed.from_path(net.sym_inputs(), net.sym_output(), net.sym_sizes(),
+                                                       ssa_path=shuffled_ssa(case["tree"], n, case["seed"]))
+    else:
+        tree = gen.real_tree(ctg, net, case["tree"])
     want_nodes = nodes_of(tree)
     order, table = make_order(case["order"], case["seed"], tree)
     seq = [node_key(p) for p, l, r in tree.traverse(order)]
@@ -311,6 +346,14 @@ def run_tree_case(case):
         return ("from_path(get_ssa_path)-other-tree", ssa), obs
     if norm(pb.linear_to_ssa(lin, n)) != norm(ssa) or norm(pb.ssa_to_linear(ssa, n)) != norm(lin):
         return ("get_path-vs-get_ssa_path-conversion", [lin, ssa]), obs
+    if case.get("cls") == "compressed":
+        # the class' own constructor from the emitted paths gives the tree back as well
+        with warnings.catch_warnings():
+            warnings.simplefilter("ignore")
+            t3 = ctg.ContractionTreeCompressed.from_path(*args, path=lin)
+            t4 = ctg.ContractionTreeCompressed.from_path(*args, ssa_path=ssa)
+        if nodes_of(t3) != want_nodes or nodes_of(t4) != want_nodes:
+            return ("ContractionTreeCompressed.from_path(get_path)-other-tree", [lin, ssa]), obs
     return None, obs
 
 
@@ -557,6 +600,7 @@ def check_case(ctx, drv, case):
     if k == "tree":
         n = len(case["net"]["inputs"])
         ctx.count("order:" + case["order"])
+        ctx.count("tree-class:" + case.get("cls", "plain"))
         ctx.count("N:%d" % n)
         nontrivial = n >= 3
     elif k == "edge":
